@@ -2,6 +2,7 @@ import LSProofs.Gen.Good
 import LSProofs.Gen.CloneDrop
 import LSProofs.Gen.Collect
 import LSProofs.Gen.Clear
+import LSProofs.Gen.Retain
 import LSProofs.StepSpec
 import LSProofs.Refine
 import LSModel.ApiGen
@@ -60,6 +61,9 @@ theorem G_pushStr_eq (g : Good ocf base st hp r t) (rf : Refuse) (s : Bytes) (hs
 theorem G_insertStr_eq (g : Good ocf base st hp r t) (rf : Refuse) (i : Nat) (s : Bytes) (hs : Valid s) :
     G.insertStr rf st hp r i s = insertStr rf st hp r i s := insert_str_good g rf i s hs
 theorem G_pop_eq (g : Good ocf base st hp r t) : G.pop st hp r = pop st hp r := pop_good g G.nofail
+theorem G_retain_eq (g : Good ocf base st hp r t) (rf : Refuse) (answers : List (Option Bool)) :
+    G.retain rf st hp r answers = retain rf st hp r answers :=
+  retain_good g rf answers (r.len + 1) (by rw [good_len g]; omega)
 theorem G_remove_eq (g : Good ocf base st hp r t) (rf : Refuse) (i : Nat) : G.remove rf st hp r i = remove rf st hp r i :=
   remove_good g rf i
 end good
@@ -210,7 +214,11 @@ theorem stepG_eq_step (rf : Refuse) {w : World} (hw : Wf w) (hrc : RcSmall w.hea
     | some r => obtain ⟨t, g, _⟩ := good_of_wf hw hg; (simp only [G_insertStr_eq g rf i s hv] <;> try rfl)
   | truncate h n plain => (simp only [stepG, step, G_truncate_eq] <;> try rfl)
   | clear h => (simp only [stepG, step, G_clear_eq] <;> try rfl)
-  | retain h answers plain => rfl
+  | retain h answers plain =>
+    simp only [stepG, step]
+    cases hg : w.get h with
+    | none => rfl
+    | some r => obtain ⟨t, g, _⟩ := good_of_wf hw hg; (simp only [G_retain_eq g rf answers] <;> try rfl)
   | reserve h n plain =>
     simp only [stepG, step]
     cases hg : w.get h with
